@@ -95,6 +95,14 @@ func decode(body []byte, raw bool) (string, bool) {
 			sb.WriteByte('\r')
 		case 't':
 			sb.WriteByte('\t')
+		case 'a':
+			sb.WriteByte('\a')
+		case 'b':
+			sb.WriteByte('\b')
+		case 'f':
+			sb.WriteByte('\f')
+		case 'v':
+			sb.WriteByte('\v')
 		case 'x', 'u', 'U':
 			n := map[byte]int{'x': 2, 'u': 4, 'U': 8}[body[i]]
 			if i+n >= len(body) {
